@@ -10,8 +10,6 @@
 // (elf_utilities) seems to have a bug and it produced corrupted ELFs :(.
 // So we do it ourselves in this code.
 
-use std::ops::{Sub, Div, Add, Mul};
-
 pub enum ExtractSectionError {
     SectionNotFound,
     Other(String),
@@ -66,6 +64,9 @@ pub fn extract_section_from_pe(mut pe_bytes: Vec<u8>, section_name: &str) -> Res
             // This is the right section - return the contents
             let size_of_raw_data = read_field::<u32>(&pe_bytes, section_header_offset + 16)?;
             let pointer_to_raw_data = read_field::<u32>(&pe_bytes, section_header_offset + 20)?;
+            if pointer_to_raw_data as usize > pe_bytes.len() {
+                return Err(format!("Section data is outside of the file").into());
+            }
             let mut x = pe_bytes.split_off(pointer_to_raw_data as usize);
             x.truncate(size_of_raw_data as usize);
             return Ok(x);
@@ -85,7 +86,7 @@ pub fn add_section_to_pe(mut pe_bytes: Vec<u8>, new_section_name: &str, mut new_
     // Increment number of sections
     let num_sections_offset = file_header_offset + 2;
     let orig_num_sections = read_field::<u16>(&pe_bytes, num_sections_offset)?;
-    let new_num_sections = orig_num_sections + 1;
+    let new_num_sections = orig_num_sections.checked_add(1).ok_or_else(|| format!("Too many sections"))?;
     write_field::<u16>(&mut pe_bytes, num_sections_offset, new_num_sections)?;
 
     let size_of_optional_header = read_field::<u16>(&pe_bytes, file_header_offset + 16)?;
@@ -100,11 +101,16 @@ pub fn add_section_to_pe(mut pe_bytes: Vec<u8>, new_section_name: &str, mut new_
     // Because the section data is aligned to FileAlignment, there is (probably) a gap of padding after
     // the end of the section headers and before the data. We can put our new section header in there
     // without having to shuffle everything else up, if there is such a gap. If not, we will have to
-    // shuffle everything up by one FileAlignment, to create space for our new section header.
+    // shuffle everything up by (at least) one FileAlignment, to create space for our new section header.
     let orig_end_of_section_headers = section_headers_offset + orig_num_sections as usize * 40;
-    if align(orig_end_of_section_headers, file_alignment as usize) - orig_end_of_section_headers < 40 {
+    if align(orig_end_of_section_headers, file_alignment as usize)? - orig_end_of_section_headers < 40 {
         // No space, we'll need to bump everything up
-        let padding = vec![0 as u8; file_alignment as usize];
+        // (by more than one FileAlignment if that is too small to hold a section header)
+        let bump = align(40, file_alignment as usize)?;
+        let padding = vec![0 as u8; bump];
+        if orig_end_of_section_headers > pe_bytes.len() {
+            return Err(format!("Section headers are outside of the file"));
+        }
         pe_bytes.splice(orig_end_of_section_headers..orig_end_of_section_headers, padding).for_each(drop);
 
         // All the existing sections need their PointerToRawData offsetting to point to the offseted data
@@ -113,13 +119,19 @@ pub fn add_section_to_pe(mut pe_bytes: Vec<u8>, new_section_name: &str, mut new_
 
             let pointer_to_raw_data_offset = section_header_offset + 20;
             let orig_pointer_to_raw_data = read_field::<u32>(&pe_bytes, pointer_to_raw_data_offset)?;
-            let new_pointer_to_raw_data = orig_pointer_to_raw_data + file_alignment;
+            let new_pointer_to_raw_data = orig_pointer_to_raw_data.checked_add(bump as u32)
+                .ok_or_else(|| format!("Section offset too large"))?;
             write_field::<u32>(&mut pe_bytes, pointer_to_raw_data_offset, new_pointer_to_raw_data as u32)?;
         }
     }
 
     // Create the new section header
-    assert!(new_section_name.len() <= 8);
+    if new_section_name.len() > 8 {
+        return Err(format!("Section name too long"));
+    }
+    if orig_num_sections == 0 {
+        return Err(format!("PE file has no sections"));
+    }
     let mut new_section_header = [0 as u8; 40];
     // Name
     new_section_header[0..new_section_name.len()].copy_from_slice(new_section_name.as_bytes());
@@ -134,40 +146,46 @@ pub fn add_section_to_pe(mut pe_bytes: Vec<u8>, new_section_name: &str, mut new_
     let prev_section_virtual_address = read_field::<u32>(&pe_bytes, prev_section_virtual_address_offset)?;
     let prev_section_virtual_size_offset = section_headers_offset as usize + (orig_num_sections as usize - 1) * 40 + 8;
     let prev_section_virtual_size = read_field::<u32>(&pe_bytes, prev_section_virtual_size_offset)?;
-    let new_section_virtual_address = align(prev_section_virtual_address + prev_section_virtual_size, section_alignment);
+    let new_section_virtual_address = align(prev_section_virtual_address.checked_add(prev_section_virtual_size)
+        .ok_or_else(|| format!("Section address too large"))?, section_alignment)?;
     write_field::<u32>(&mut new_section_header, 12, new_section_virtual_address as u32)?;
     // SizeOfRawData
-    let new_section_size_of_raw_data = align(new_section_bytes.len() as u32, file_alignment);
+    let new_section_size_of_raw_data = align(u32::try_from(new_section_bytes.len())
+        .map_err(|_| format!("Section too large"))?, file_alignment)?;
     write_field::<u32>(&mut new_section_header, 16, new_section_size_of_raw_data)?;
     // Characteristics
     write_field::<u32>(&mut new_section_header, 36, 0x00000040)?; // IMAGE_SCN_CNT_INITIALIZED_DATA
 
     // Add the new section header, overwriting the padding/zeroes that we've ensured is there
     let new_section_header_offset = section_headers_offset + orig_num_sections as usize * 40;
-    pe_bytes[new_section_header_offset..new_section_header_offset+40].copy_from_slice(&new_section_header);
+    pe_bytes.get_mut(new_section_header_offset..new_section_header_offset+40)
+        .ok_or_else(|| format!("No space for the new section header"))?.copy_from_slice(&new_section_header);
 
     // Append the new section data, adding padding before to align it if necessary,
     // and padding after to make it match SizeOfRawData
-    let new_section_offset = align(pe_bytes.len(), file_alignment as usize);
+    let new_section_offset = align(pe_bytes.len(), file_alignment as usize)?;
     pe_bytes.resize(new_section_offset as usize, 0);
     new_section_bytes.resize(new_section_size_of_raw_data as usize, 0);
     pe_bytes.append(&mut new_section_bytes);
     drop(new_section_bytes); // It's just been emptied, so prevent further use
 
     // Set the new section's PointerToRawData
-    write_field::<u32>(&mut pe_bytes, new_section_header_offset + 20, new_section_offset as u32)?;
+    write_field::<u32>(&mut pe_bytes, new_section_header_offset + 20,
+        u32::try_from(new_section_offset).map_err(|_| format!("File too large"))?)?;
 
     // Update SizeOfImage in the optional header
     let size_of_image_offset = optional_header_offset + 56;
-    let new_size_of_image = new_section_virtual_address + new_section_virtual_size as u32;
-    let new_size_of_image = align(new_size_of_image, section_alignment);
+    let new_size_of_image = new_section_virtual_address.checked_add(new_section_virtual_size as u32)
+        .ok_or_else(|| format!("Image too large"))?;
+    let new_size_of_image = align(new_size_of_image, section_alignment)?;
     write_field::<u32>(&mut pe_bytes, size_of_image_offset, new_size_of_image as u32)?;
 
     // Recalculate SizeOfHeaders in the optional header
     let size_of_headers_offset = optional_header_offset + 60;
     let new_size_of_headers = orig_end_of_section_headers + 40;
-    let new_size_of_headers = align(new_size_of_headers, file_alignment as usize);
-    write_field::<u32>(&mut pe_bytes, size_of_headers_offset, new_size_of_headers as u32)?;
+    let new_size_of_headers = align(new_size_of_headers, file_alignment as usize)?;
+    write_field::<u32>(&mut pe_bytes, size_of_headers_offset,
+        u32::try_from(new_size_of_headers).map_err(|_| format!("Headers too large"))?)?;
 
     Ok(pe_bytes)
 }
@@ -221,20 +239,23 @@ pub fn extract_section_from_elf(mut elf_bytes: Vec<u8>, section_name: &str) -> R
     // Find the string table that contains section names (which is itself a section)
     let section_names_section_idx = read_field::<u16>(&elf_bytes, 0x3E)? as usize;
     let section_names_table_offset = read_field::<u64>(&elf_bytes,
-        section_header_table_offset + section_names_section_idx * section_header_size + 0x18)? as usize;
+        checked_offset(checked_offset(section_header_table_offset, section_names_section_idx * section_header_size)?, 0x18)?)? as usize;
 
     // Search through the section table for the one with the right name
     for section_idx in 0..num_sections {
-        let section_header_offset = section_header_table_offset + section_idx * section_header_size;
+        let section_header_offset = checked_offset(section_header_table_offset, section_idx * section_header_size)?;
         // Read the section name and check it. Name is the first field (offset 0x0)
         let name_offset_within_string_table =
             read_field::<u32>(&elf_bytes, section_header_offset + 0x0)? as usize;
         // Practical max length of 32, just to prevent us reading too much garbage if something goes wrong
-        let name = read_string(&elf_bytes, section_names_table_offset + name_offset_within_string_table, 32)?;
+        let name = read_string(&elf_bytes, checked_offset(section_names_table_offset, name_offset_within_string_table)?, 32)?;
         if name == section_name.as_bytes() {
             // This is the right section - return the contents
-            let section_data_offset = read_field::<u64>(&elf_bytes, section_header_offset + 0x18)?;
-            let section_data_size = read_field::<u64>(&elf_bytes, section_header_offset + 0x20)?;
+            let section_data_offset = read_field::<u64>(&elf_bytes, checked_offset(section_header_offset, 0x18)?)?;
+            let section_data_size = read_field::<u64>(&elf_bytes, checked_offset(section_header_offset, 0x20)?)?;
+            if section_data_offset as usize > elf_bytes.len() {
+                return Err(format!("Section data is outside of the file").into());
+            }
 
             let mut x = elf_bytes.split_off(section_data_offset as usize);
             x.truncate(section_data_size as usize);
@@ -270,7 +291,7 @@ pub fn add_section_to_elf(mut elf_bytes: Vec<u8>, new_section_name: &str, mut ne
 
     // Remove the section header table and keep it separate, otherwise once we start
     // modifying the file we would overwrite this. We'll add the table back once we're done.
-    if elf_bytes.len() != section_header_table_offset + orig_num_sections * section_header_size {
+    if elf_bytes.len() != checked_offset(section_header_table_offset, orig_num_sections * section_header_size)? {
         return Err(format!("ELF file wrong size or layout"));
     }
     let mut section_header_table = elf_bytes.split_off(section_header_table_offset);
@@ -284,10 +305,11 @@ pub fn add_section_to_elf(mut elf_bytes: Vec<u8>, new_section_name: &str, mut ne
     let mut new_bytes = new_section_name.as_bytes().to_vec();
     new_bytes.push(b'\0');
     let inserted_name_num_bytes = new_bytes.len();
-    elf_bytes.splice(
-        section_names_table_offset + section_names_table_old_size..
-        section_names_table_offset + section_names_table_old_size,
-        new_bytes).for_each(drop);
+    let section_names_table_end = checked_offset(section_names_table_offset, section_names_table_old_size)?;
+    if section_names_table_end > elf_bytes.len() {
+        return Err(format!("Section names table is outside of the file"));
+    }
+    elf_bytes.splice(section_names_table_end..section_names_table_end, new_bytes).for_each(drop);
 
     // Update names section size in its section header
     let section_names_table_new_size = section_names_table_old_size + inserted_name_num_bytes;
@@ -299,7 +321,8 @@ pub fn add_section_to_elf(mut elf_bytes: Vec<u8>, new_section_name: &str, mut ne
     for section_idx in section_names_section_idx + 1..orig_num_sections {
         let section_offset_offset = section_idx * section_header_size + 0x18;
         let orig_offset = read_field::<u64>(&section_header_table, section_offset_offset)?;
-        let new_offset = orig_offset + inserted_name_num_bytes as u64;
+        let new_offset = orig_offset.checked_add(inserted_name_num_bytes as u64)
+            .ok_or_else(|| format!("Section offset too large"))?;
         write_field::<u64>(&mut section_header_table, section_offset_offset, new_offset)?;
     }
 
@@ -311,7 +334,8 @@ pub fn add_section_to_elf(mut elf_bytes: Vec<u8>, new_section_name: &str, mut ne
     // Add header for our new section to the section header table
     let mut new_section_header = vec![0 as u8; section_header_size];
     // sh_name - the offset into the names section for our new name
-    write_field::<u32>(&mut new_section_header, 0x0, section_names_table_old_size as u32)?;
+    write_field::<u32>(&mut new_section_header, 0x0,
+        u32::try_from(section_names_table_old_size).map_err(|_| format!("Section names table too large"))?)?;
     // sh_type
     write_field::<u32>(&mut new_section_header, 0x04, 0x80000000)?; // 0x80000000 (and above) is for custom sections
     // sh_offset
@@ -327,7 +351,8 @@ pub fn add_section_to_elf(mut elf_bytes: Vec<u8>, new_section_name: &str, mut ne
 
     // Update the main header with the new offset of the section table and the new number of sections
     write_field::<u64>(&mut elf_bytes, 0x28, new_section_header_table_offset)?;
-    write_field::<u16>(&mut elf_bytes, 0x3C, new_num_sections as u16)?;
+    write_field::<u16>(&mut elf_bytes, 0x3C,
+        u16::try_from(new_num_sections).map_err(|_| format!("Too many sections"))?)?;
 
     Ok(elf_bytes)
 }
@@ -335,7 +360,7 @@ pub fn add_section_to_elf(mut elf_bytes: Vec<u8>, new_section_name: &str, mut ne
 /// Reads a fixed-size field (u32, u64, etc.) from a byte array.
 fn read_field<T: Number>(bytes: &[u8], offset: usize) -> Result<T, String> {
     let size = std::mem::size_of::<T>();
-    let b = bytes.get(offset..offset + size).ok_or(format!("Failed to read {size} bytes at {offset}"))?;
+    let b = bytes.get(offset..checked_offset(offset, size)?).ok_or(format!("Failed to read {size} bytes at {offset}"))?;
     let x = T::from_bytes(b);
     Ok(x)
 }
@@ -343,7 +368,7 @@ fn read_field<T: Number>(bytes: &[u8], offset: usize) -> Result<T, String> {
 /// Writes a fixed-size field (u32, u64, etc.) into a byte array.
 fn write_field<T: Number>(bytes: &mut [u8], offset: usize, val: T) -> Result<(), String> {
     let size = std::mem::size_of::<T>();
-    let b = bytes.get_mut(offset..offset + size).ok_or(format!("Failed to write {size} bytes at {offset}"))?;
+    let b = bytes.get_mut(offset..checked_offset(offset, size)?).ok_or(format!("Failed to write {size} bytes at {offset}"))?;
     b.copy_from_slice(&val.to_bytes());
     Ok(())
 }
@@ -365,11 +390,24 @@ fn read_string(bytes: &[u8], offset: usize, max_size: usize) -> Result<&[u8], St
     Ok(&bytes[offset..offset+size])
 }
 
-/// Rounds up `x` to a multiple of `multiple`
-fn align<T>(x: T, multiple: T) -> T
-    where T : Copy + Sub<Output = T> + Div<Output = T> + Add<Output=T> + Mul<Output = T> + From<u8>
+/// Adds two offsets read from an (untrusted) file, reporting overflow as an error.
+fn checked_offset(a: usize, b: usize) -> Result<usize, String> {
+    a.checked_add(b).ok_or_else(|| format!("Offset {a} + {b} is too large"))
+}
+
+/// Rounds up `x` to a multiple of `multiple`.
+/// Fails if `multiple` is zero or the result doesn't fit in `T` (both can come from a malformed file).
+fn align<T>(x: T, multiple: T) -> Result<T, String>
+    where T : Copy + TryInto<u128> + TryFrom<u128>
 {
-    ((x - 1.into()) / multiple + 1.into()) * multiple
+    let err = || format!("Invalid alignment");
+    let x: u128 = x.try_into().map_err(|_| err())?;
+    let multiple: u128 = multiple.try_into().map_err(|_| err())?;
+    if multiple == 0 {
+        return Err(err());
+    }
+    let aligned = if x == 0 { 0 } else { ((x - 1) / multiple + 1) * multiple };
+    T::try_from(aligned).map_err(|_| err())
 }
 
 trait Number {
